@@ -297,6 +297,11 @@ def scene_sampling(chk, MX, n):
             hs = sorted(rng.uniform(0, zmax) for _ in range(3))
             wind_tab = [[h, rng.uniform(-10, 10), rng.uniform(-10, 10), rng.uniform(-2, 2)] for h in hs]
             sd["scene"]["atmosphere"]["V_wind"] = copy.deepcopy(wind_tab)
+        std_av = i % 3 == 0
+        if std_av:
+            sd["scene"]["atmosphere"]["speed_of_sound"] = "standard"
+            sd["scene"]["atmosphere"]["viscosity"] = "standard"
+            chk.count("scene_a_nu=standard")
         ac = gen.simple_wing_aircraft(N=4, b=rng.uniform(3, 8))
         if i % 2 == 1:
             ac["CG"] = [round(rng.uniform(-2.0, 0.5), 2), 0.0, round(rng.uniform(-0.5, 0.8), 2)]      # the atmosphere is sampled at the control points, wherever the CG is
@@ -337,6 +342,14 @@ def scene_sampling(chk, MX, n):
         if not np.allclose(got, exp_rho, rtol=rtol, atol=0):
             chk.violation("sampling:rho-at-control-points", dict(kind="scene-sampling", scene=sd, state=st, got=got, expected=exp_rho))
             return
+        if std_av:
+            sa_ = StandardAtmosphere(units)
+            for arr, fn, what in ((sc._a, sa_.a, "speed-of-sound"), (sc._nu, sa_.nu, "viscosity")):
+                exp_ = np.array([fn(float(h)) for h in hcp])
+                got_ = np.array(arr, dtype=float) * np.ones(len(hcp))
+                if not np.allclose(got_, exp_, rtol=1e-10, atol=0):
+                    chk.violation("sampling:%s-at-control-points" % what, dict(kind="scene-sampling", scene=sd, state=st, got=got_, expected=exp_, altitudes=hcp))
+                    return
         if wind_tab is not None:
             xs = [t[0] for t in wind_tab]
             expw = np.array([[_interp_py(h, xs, [t[k] for t in wind_tab]) for k in (1, 2, 3)] for h in hcp])
